@@ -95,7 +95,7 @@ def c05_search(rng, budget):
                     # comparisons across the unit pair
                     if u1 != u2:
                         out += cmp_check(k, v, u1, c.value, u2)
-                        for scale in (0.5, 2.0, 1 + 1e-6):
+                        for scale in (0.5, 2.0, 1 + 1e-6, 1 + 4e-10, 1 - 4e-10, 1 + 3e-12):   # far apart, and close but beyond rounding
                             w = c.value * scale
                             if S.valid_value(k, w):
                                 out += cmp_check(k, v, u1, w, u2)
